@@ -431,6 +431,18 @@ def _child_entry(argv):
         raise SystemExit("rpyc imported from %s, expected %s" % (rpyc.__file__, repo))
     if os.environ.get("RV_YIELD_INJECT", "1") != "0":
         _install_yield_injection()
+    if os.environ.get("RV_FORK_FAIL"):
+        # fault injection: the n-th, ... calls of os.fork() in this process fail the way they do on a loaded machine
+        import errno
+        nums = {int(x) for x in os.environ["RV_FORK_FAIL"].split(",") if x}
+        real_fork, calls = os.fork, [0]
+
+        def failing_fork():
+            calls[0] += 1
+            if calls[0] in nums:
+                raise OSError(errno.EAGAIN, "Resource temporarily unavailable (injected)")
+            return real_fork()
+        os.fork = failing_fork
     if os.environ.get("RV_NOFILE"):
         # a small descriptor table: a listening process that keeps something of every client it ever had runs out within one run
         import resource
@@ -524,7 +536,7 @@ class ChildDied(ChildError):
 
 
 class ServerProc(object):
-    def __init__(self, kind, auth=False, unix=False, start_watchdog=60, cmd_watchdog=60, nofile=None, accept_pause=False):
+    def __init__(self, kind, auth=False, unix=False, start_watchdog=60, cmd_watchdog=60, nofile=None, accept_pause=False, fork_fail=None):
         """auth: False | True | "rewrap" (the authenticator returns a new socket object for the same descriptor)"""
         if kind not in KINDS:
             raise ValueError(kind)
@@ -543,6 +555,10 @@ class ServerProc(object):
         env["RV_AUTH_REWRAP"] = "1" if auth == "rewrap" else "0"
         env["RV_AUTH_PATIENT"] = "1" if auth == "patient" else "0"
         env["RV_ACCEPT_PAUSE"] = "1" if accept_pause else "0"
+        if fork_fail:
+            env["RV_FORK_FAIL"] = fork_fail
+        else:
+            env.pop("RV_FORK_FAIL", None)
         if nofile:
             env["RV_NOFILE"] = str(nofile)
         else:
